@@ -86,10 +86,29 @@ class VFSZip(VFS_Real):
 
         cache_fspath = self.chain.getfspath(cache_filename)
         try:
-            self.dircache = shelve.open(cache_fspath, "r")
+            # Another worker may be rewriting the cache right now: read all
+            # of it and make sure that it is complete before relying on it.
+            with shelve.open(cache_fspath, "r") as db:
+                dircache = dict(db)
+            if not self.is_complete_cache(dircache):
+                raise ValueError("incomplete cache")
+            self.dircache = dircache
         except Exception:
             self.populate_cache()
             self.save_cache()
+
+    @staticmethod
+    def is_complete_cache(dircache: dict) -> bool:
+        """Every inode that a directory of the index names is in the index."""
+        if not isinstance(dircache.get("0"), dict):
+            return False
+        for value in dircache.values():
+            if isinstance(value, dict):
+                if any(inode not in dircache for inode in value.values()):
+                    return False
+            elif not isinstance(value, str):
+                return False
+        return True
 
     def _isentryincache(self, fspath: str) -> bool:
         try:
